@@ -49,6 +49,21 @@ def iban_three_ways(text: str, validate_bban: bool = False):
     return o_ctor, o_unv, o_val, o_isv
 
 
+class _Text(str):
+    """A plain str subclass: still 'a text'."""
+
+
+def wrapped_inputs_agree(mon, ctor, o_ctor, o_unv, text, kw, w, tag):
+    """The same text handed over as an (unvalidated) library object or as another str subclass must be
+    judged like the plain string."""
+    for name, arg in (("unvalidated_object", o_unv.value if o_unv.ok else None), ("str_subclass", _Text(text))):
+        if arg is None:
+            continue
+        o = observe(ctor, arg, **kw)
+        if o.ok != o_ctor.ok:
+            mon.viol(f"{tag}:text_passed_as_{name}_judged_differently", w, o_ctor.brief(), o.brief())
+
+
 def judge_iban_accept(mon: Mon, text: str, table, tag: str):
     """C01: accept/reject against R-IBAN, shape of accepted objects, agreement of the three entry
     points.  Returns the expectation."""
@@ -77,6 +92,7 @@ def judge_iban_accept(mon: Mon, text: str, table, tag: str):
             mon.viol("accepted_form_not_ascii_upper_alnum_le34", w, "[A-Z0-9]{<=34}", esc(s))
     else:
         mon.tally("lib_reject")
+    wrapped_inputs_agree(mon, lib().IBAN, o_ctor, o_unv, text, {}, w, "iban")
     # entry points must agree on accept / reject
     v_val = o_val.ok
     if v_val != acc:
@@ -104,6 +120,7 @@ def judge_iban_total(mon: Mon, text: str, table, tag: str, validate_bban: bool =
             mon.viol(f"escape:{name}:{o.exc_name}", w, "only SchwiftyException subclasses", o.brief())
     if not o_isv.ok:
         mon.viol(f"is_valid_raised:{o_isv.exc_name}", w, "True/False", o_isv.brief())
+    wrapped_inputs_agree(mon, lib().IBAN, o_ctor, o_unv, text, {"validate_bban": True} if validate_bban else {}, w, "iban")
     # ctor (with flag) <=> validate (with flag); ctor without flag <=> is_valid
     if o_ctor.ok != o_val.ok:
         mon.viol("ctor_vs_validate_disagree", w, o_ctor.brief(), o_val.brief())
@@ -162,6 +179,7 @@ def judge_bic(mon: Mon, text: str, strict: bool, tag: str, prop_mode: str = "acc
     acc = o_ctor.ok
     mon.tally(f"oracle_{exp.verdict}")
     mon.tally("lib_accept" if acc else "lib_reject")
+    wrapped_inputs_agree(mon, lib().BIC, o_ctor, o_unv, text, {"enforce_swift_compliance": True} if strict else {}, w, "bic")
     if prop_mode == "accept":
         if exp.verdict != R.DONT_CARE:
             mon.distinct(("bic", exp.norm, strict))
